@@ -35,6 +35,9 @@ pub fn check_group(c: &mut Ctx, bytes: &[u8], tag: u8) {
     c.evaluations += 1;
     let w = GROUP_WIDTH;
     let o = group_observe(bytes, tag);
+    if c.evaluations % 200_003 == 7 {
+        c.log(format!("group {:02x?} tag {:#04x}: match_tag {:?} match_empty {:?} match_full {:?}", bytes, tag, o.match_tag.iter, o.match_empty.iter, o.match_full.iter));
+    }
     let what = || format!("group {:02x?} tag {:#04x} (width {}, stride {})", bytes, tag, w, BITMASK_STRIDE);
     crate::check!(o.loads_agree, "{}: aligned and unaligned load disagree", what());
     let is = |f: &dyn Fn(u8) -> bool| -> Vec<bool> { bytes.iter().map(|b| f(*b)).collect() };
